@@ -225,3 +225,92 @@ def gfa_text(g, with_seq=True, extra_tags=None, order_seed=None, header=False, l
     if header:
         lines = ["H\tVN:Z:1.0"] + lines
     return "\n".join(lines) + "\n"
+
+
+# ------------------------------------------------------------------------------------------
+# raw GFA text (C07-A, C14, C15): arbitrary small graphs, all orientation combinations, self-links
+
+
+def _tag_value(draw, ty):
+    if ty == "A":
+        return draw(st.sampled_from(list("Az9*+-:;!~")))
+    if ty == "i":
+        return draw(st.sampled_from(["0", "7", "-5", "+3", "123456"]))
+    if ty == "f":
+        return draw(st.sampled_from(["0.5", "-.5", "1e-5", "+3.25", "7", "2.5E+3"]))
+    if ty == "Z":
+        body = draw(st.text(alphabet="abXY09_#.-:*/= ", min_size=0, max_size=8))
+        return body.strip(" ") if body.strip(" ") else draw(st.sampled_from(["", "x"]))
+    if ty == "H":
+        return draw(st.sampled_from(["", "1A", "00FF"]))
+    if ty == "B":
+        return draw(st.sampled_from(["c,1,-2", "f,0.5,1e3", "I,7", "S"]))
+    raise AssertionError(ty)
+
+
+@st.composite
+def sam_tags(draw, max_tags=3, reserved=()):
+    names = draw(st.lists(
+        st.sampled_from(["xx", "Xy", "ab", "zZ", "q1", "R2", "kc", "RC", "dp"]), max_size=max_tags, unique=True))
+    out = []
+    for nm in names:
+        if nm in reserved:
+            continue
+        ty = draw(st.sampled_from("AifZHB"))
+        out.append("%s:%s:%s" % (nm, ty, _tag_value(draw, ty)))
+    return out
+
+
+@st.composite
+def raw_gfa(draw, max_nodes=7, max_links=12, seq_mode="seq", link_tags=True, seg_tags=True, other_lines=True,
+            id_pool=None, max_ln=10):
+    """Returns {"segments": [[id, seq, [tags]]], "links": [[a,oa,b,ob,overlap,[tags]]], "text": str}."""
+    rnd = random.Random(draw(st.integers(0, 2**30)))
+    pool = id_pool or ["a", "b", "c", "s1", "s2", "s10", "n3", "0", "x_y"]
+    n = draw(st.integers(1, max_nodes))
+    ids = draw(st.permutations(pool))[:n]
+    segs = []
+    for i in ids:
+        if seq_mode == "seq":
+            seq = random_seq(rnd, draw(st.integers(1, max_ln)), True)
+        elif seq_mode == "star":
+            seq = "*"
+        else:
+            seq = "*" if draw(st.booleans()) else random_seq(rnd, draw(st.integers(1, max_ln)))
+        segs.append([i, seq, draw(sam_tags()) if seg_tags else []])
+    links = []
+    seen = {}
+    nl = draw(st.integers(0, max_links))
+    for _ in range(nl):
+        a = draw(st.sampled_from(ids))
+        b = draw(st.sampled_from(ids))
+        oa = draw(st.sampled_from("+-"))
+        ob = draw(st.sampled_from("+-"))
+        key = min((a, oa, b, ob), (b, FLIP[ob], a, FLIP[oa]))
+        if key in seen:
+            # the same adjacency again: either skip, or declare it again (possibly from the other end) identically
+            if draw(st.booleans()):
+                continue
+            ov, tags = seen[key]
+            if draw(st.booleans()):
+                a, oa, b, ob = b, FLIP[ob], a, FLIP[oa]
+            links.append([a, oa, b, ob, ov, list(tags)])
+            continue
+        ov = draw(st.sampled_from([0, 0, 0, 1, 5]))
+        tags = draw(sam_tags(max_tags=2)) if (link_tags and draw(st.booleans())) else []
+        seen[key] = (ov, tags)
+        links.append([a, oa, b, ob, ov, list(tags)])
+    lines = []
+    for i, seq, tags in segs:
+        lines.append("\t".join(["S", i, seq] + tags))
+    for a, oa, b, ob, ov, tags in links:
+        lines.append("\t".join(["L", a, oa, b, ob, "%dM" % ov] + tags))
+    if other_lines:
+        for _ in range(draw(st.integers(0, 3))):
+            lines.append(draw(st.sampled_from([
+                "H\tVN:Z:1.0", "# a comment", "P\tp1\t%s+\t*" % ids[0], "W\tsample\t1\tctg\t0\t5\t>%s" % ids[0],
+                "C\t%s\t+\t%s\t+\t0\t1M" % (ids[0], ids[-1]),
+            ])))
+    order = draw(st.permutations(range(len(lines))))
+    lines = [lines[k] for k in order]
+    return {"segments": segs, "links": links, "text": "\n".join(lines) + "\n"}
